@@ -1386,6 +1386,9 @@ pub struct Base64Decoder<R> {
     buffer: [u8; 64],
     buffer_offset: usize,
     buffer_size: usize,
+    /// partially read group of four input symbols
+    input: [u8; 4],
+    input_size: usize,
 }
 
 impl<R: Read> Base64Decoder<R> {
@@ -1395,6 +1398,8 @@ impl<R: Read> Base64Decoder<R> {
             buffer: [0u8; 64],
             buffer_offset: 0,
             buffer_size: 0,
+            input: [0u8; 4],
+            input_size: 0,
         }
     }
 
@@ -1435,16 +1440,25 @@ impl<R: Read> Base64Decoder<R> {
             self.buffer_size = 0;
         }
         while self.buffer_size + 3 <= self.buffer.len() {
-            let mut input = [0u8; 4];
-            let size = self.read.read(&mut input)?;
-            if size == 0 {
+            // reader is allowed to return fewer bytes than requested, keep
+            // reading until the whole group is available or EOF is reached
+            while self.input_size < 4 {
+                let size = self.read.read(&mut self.input[self.input_size..])?;
+                if size == 0 {
+                    break;
+                }
+                self.input_size += size;
+            }
+            if self.input_size == 0 {
                 break;
-            } else if size != 4 {
+            } else if self.input_size != 4 {
                 return Err(std::io::Error::other(Error::ParseError(
                     "Base64Decoder",
                     "input length is not dividable by 4".to_owned(),
                 )));
             }
+            let input = self.input;
+            self.input_size = 0;
             let out = Self::decode_u8x4(input);
             let out_size = Self::decode_size(input);
             self.buffer[self.buffer_size..self.buffer_size + out_size]
